@@ -45,7 +45,9 @@ def value_of(kind, v):
 
 
 def index_of(kind, s):
-    return 100 + BAD_VALUES.index(s) if s in BAD_VALUES else VALUES[kind].index(s)
+    if s in BAD_VALUES:
+        return 100 + BAD_VALUES.index(s)
+    return VALUES[kind].index(s) if s in VALUES[kind] else -1
 
 
 _schema = None
